@@ -275,18 +275,27 @@ def keyLoop (cancelAt : Option Nat) : Nat → List GetRes → List Item → List
       | .err => .error (.get, i + 1)
       | .ok addrs me => keyLoop cancelAt (i + 1) rest (mkItem addrs me :: items) (addrs :: sets)
 
-/-- `fixEmpty` selects the variant of the code: `false` = the code as it is; `true` = with the
-suggested repair of D2 (early `return nil` after `Cleanup()` when `len(keys) == 0`, placed after the
-last context check). -/
-def prepare (fixEmpty : Bool) (icount : Int) (cancelAt : Option Nat) (gets : List GetRes) :
+/-- shared body of the sequential prefix. `emptyEarly`: does an empty key list return early
+(`if len(keys) == 0 { o.Cleanup(); return nil }` after the last context check)? -/
+def prepareWith (emptyEarly : Bool) (icount : Int) (cancelAt : Option Nat) (gets : List GetRes) :
     Except (Early × Nat) Prep :=
   if icount ≤ 0 then .error (.noInstances, 0) else
   match keyLoop cancelAt 0 gets [] [] with
   | .error e => .error e
   | .ok (items, sets) =>
     if cancelled cancelAt gets.length then .error (.ctx, gets.length)
-    else if fixEmpty ∧ gets = [] then .error (.emptyOk, 0)
+    else if emptyEarly ∧ gets = [] then .error (.emptyOk, 0)
     else .ok { items := items, calls := group sets, gets := gets.length }
+
+/-- the sequential prefix of `DoBatchWithOptions` (the code as it is now, i.e. with the repair of D2:
+an empty key list returns `nil` after `Cleanup()`), up to the point where the goroutines are spawned. -/
+def prepare (icount : Int) (cancelAt : Option Nat) (gets : List GetRes) : Except (Early × Nat) Prep :=
+  prepareWith true icount cancelAt gets
+
+/-- HISTORY: the prefix before commit "fix: DoBatch with an empty key list never returns" — no early
+return for an empty key list. Kept only for the witness theorem `empty_keys_hang`. -/
+def preparePreFix (icount : Int) (cancelAt : Option Nat) (gets : List GetRes) : Except (Early × Nat) Prep :=
+  prepareWith false icount cancelAt gets
 
 def mkThreads (calls : List (Nat × List Nat)) (out : Nat → Outcome) : List Thread :=
   calls.map fun (a, idx) => { id := a, out := out a, todo := idx }
@@ -294,8 +303,5 @@ def mkThreads (calls : List (Nat × List Nat)) (out : Nat → Outcome) : List Th
 /-- state right after the spawn loop and `o.Go(cleanup goroutine)`, when the caller enters `select`. -/
 def initSt (p : Prep) (out : Nat → Outcome) : St :=
   { items := p.items, thr := mkThreads p.calls out, pending := p.items.length, wg := p.calls.length }
-
-/-- which code variant the correspondence check compares against (flip when the D2 repair lands). -/
-def fixEmptyKeys : Bool := true
 
 end C10
